@@ -324,18 +324,16 @@ example : recv 4294967295 1 [some ⟨1, 0, 9⟩] = .err "BadSequenceNumberInvali
 
 /-! ### sender: SendBuffer -/
 
-theorem chunkSeq_mkChunk (c : Chan) (seq req fin : Nat) (body : Bytes) (h : seq < 4294967296) :
-    chunkSeq (mkChunk c seq req fin body) = some seq := by
-  simp [chunkSeq, mkChunk, u32le, readU32]
-  omega
+theorem chunkSeq_mkChunk (c : Chan) (k : CKind) (seq req fin : Nat) (body : Bytes) (h : seq < 4294967296) :
+    chunkSeq (mkChunk c k seq req fin body) = some seq := by
+  cases k <;> simp [chunkSeq, seqOffset, mkChunk, kindCode, secHdr, asymNone, u32le, readU32] <;> omega
 
-theorem chunkReq_mkChunk (c : Chan) (seq req fin : Nat) (body : Bytes) (h : req < 4294967296) :
-    chunkReq (mkChunk c seq req fin body) = some req := by
-  simp [chunkReq, mkChunk, u32le, readU32]
-  omega
+theorem chunkReq_mkChunk (c : Chan) (k : CKind) (seq req fin : Nat) (body : Bytes) (h : req < 4294967296) :
+    chunkReq (mkChunk c k seq req fin body) = some req := by
+  cases k <;> simp [chunkReq, seqOffset, mkChunk, kindCode, secHdr, asymNone, u32le, readU32] <;> omega
 
-theorem numberChunks_seq (c : Chan) (seq req : Nat) : ∀ (ps : List Bytes) (i : Nat) (cs : List Bytes),
-    numberChunks c seq req i ps = some cs →
+theorem numberChunks_seq (c : Chan) (k : CKind) (seq req : Nat) : ∀ (ps : List Bytes) (i : Nat) (cs : List Bytes),
+    numberChunks c k seq req i ps = some cs →
     cs.length = ps.length ∧ cs.map chunkSeq = (List.range' (seq + i) ps.length).map some ∧
     (req < 4294967296 → ∀ ch ∈ cs, chunkReq ch = some req) := by
   intro ps
@@ -347,7 +345,7 @@ theorem numberChunks_seq (c : Chan) (seq req : Nat) : ∀ (ps : List Bytes) (i :
     cases ha : addU32 seq i with
     | none => simp [ha] at h
     | some s0 =>
-      cases hn : numberChunks c seq req (i + 1) ps with
+      cases hn : numberChunks c k seq req (i + 1) ps with
       | none => simp [ha, hn] at h
       | some rest =>
         simp [ha, hn] at h
@@ -356,12 +354,12 @@ theorem numberChunks_seq (c : Chan) (seq req : Nat) : ∀ (ps : List Bytes) (i :
         obtain ⟨hs, hlt⟩ := addU32_some ha
         refine ⟨by simp [e1], ?_, ?_⟩
         · simp only [List.map_cons, List.length_cons, List.range'_succ]
-          rw [e2, chunkSeq_mkChunk _ _ _ _ _ (by omega), hs]
+          rw [e2, chunkSeq_mkChunk _ _ _ _ _ _ (by omega), hs]
           simp [Nat.add_assoc]
         · intro hr ch hch
           simp only [List.mem_cons] at hch
           rcases hch with h1 | h1
-          · subst h1; exact chunkReq_mkChunk _ _ _ _ _ hr
+          · subst h1; exact chunkReq_mkChunk _ _ _ _ _ _ hr
           · exact e3 hr ch h1
 
 /-- what an accepted `write` does to the counters and what its chunks carry -/
@@ -399,21 +397,21 @@ theorem write_ok_seq (s : SB) (c : Chan) (cl : Bool) (req nid : Nat) (msg : Byte
             · split at he
               · split at he
                 · simp at he
-                · cases hn : numberChunks c first req 0 (chunksOf (s.sendSize - 24) msg) with
+                · cases hn : numberChunks c (msgKind msg) first req 0 (chunksOf (s.sendSize - (20 + (secHdr c (msgKind msg)).length)) msg) with
                   | none => simp [hn] at he
                   | some cs1 =>
                     simp [hn] at he
                     subst he
-                    obtain ⟨e1, e2, e3⟩ := numberChunks_seq c first req _ 0 cs1 hn
+                    obtain ⟨e1, e2, e3⟩ := numberChunks_seq c (msgKind msg) first req _ 0 cs1 hn
                     rw [e1, e2, hf]
                     exact ⟨by simp, e3⟩
               · simp at he
                 subst he
                 refine ⟨?_, ?_⟩
-                · simp [chunkSeq_mkChunk _ _ _ _ _ hflt, hf, List.range'_succ]
+                · simp [chunkSeq_mkChunk _ _ _ _ _ _ hflt, hf, List.range'_succ]
                 · intro hr ch hch
                   simp at hch; subst hch
-                  exact chunkReq_mkChunk _ _ _ _ _ hr
+                  exact chunkReq_mkChunk _ _ _ _ _ _ hr
 
 theorem sink_lastSeq (s : SB) (k : Nat) (s' : SB) (w : Bytes) (h : s.sink k = .ok s' w) :
     s'.lastSeq = s.lastSeq := by
@@ -570,7 +568,7 @@ theorem mw_write_seq (s : MW) (c : Chan) (cl : Bool) (req nid : Nat) (msg : Byte
     simp only [ha] at h
     obtain ⟨hf, hflt⟩ := addU32_some ha
     have he : ∀ r, chunkerEncode c cl first req s.maxMsg 0 nid msg = r →
-        (∃ e, r = .err e) ∨ r = .ok [mkChunk c first req 70 msg] := by
+        (∃ e, r = .err e) ∨ r = .ok [mkChunk c (msgKind msg) first req 70 msg] := by
       intro r hr
       unfold chunkerEncode at hr
       split at hr
@@ -589,8 +587,8 @@ theorem mw_write_seq (s : MW) (c : Chan) (cl : Bool) (req nid : Nat) (msg : Byte
         · simp at h
           subst h
           refine ⟨by simp [hf], by simp only; omega, _, rfl, ?_, ?_⟩
-          · rw [chunkSeq_mkChunk _ _ _ _ _ (by omega), hf]
-          · intro hr; exact chunkReq_mkChunk _ _ _ _ _ hr
+          · rw [chunkSeq_mkChunk _ _ _ _ _ _ (by omega), hf]
+          · intro hr; exact chunkReq_mkChunk _ _ _ _ _ _ hr
 
 example : ((MW.new 100 0 0).write ⟨1, 1⟩ false 5 1 [1, 2, 3]) =
     .ok { bufLen := 100, lastReq := 1000, maxMsg := 0, maxChunks := 0, lastSeq := 1,
